@@ -143,6 +143,9 @@ static void *queuer_body(struct cmb_process *me, void *ctx)
 {
     const int id = (int)(intptr_t)ctx;
     start_next();
+    /* waiters arrive one after the other, so that every one has its own waiting time (and the order by
+     * arrival is the order of the indices) */
+    cmb_process_hold(0.01 * id);
     if (op == 4 && id == victim) {
         cmb_process_timer_add(me, 3.0, CMB_PROCESS_TIMEOUT);
     }
@@ -218,6 +221,113 @@ static void run_guardq(void)
     }
     vx_outcome((uint64_t)n * 100 + (uint64_t)op * 10 + (uint64_t)which);
     vx_state((uint64_t)n * 100 + (uint64_t)op * 10 + (uint64_t)which);
+    res.holder = NULL;
+    cmb_resource_terminate(&res);
+}
+
+/*
+ * "guardorder" (registered under C06): every assignment of priorities {0,1,2} to n waiters that arrive one after
+ * the other, every choice of one waiter that leaves from inside the list (cancelled by a third party or timing
+ * out), every pair of priorities for two late arrivals; then the holder releases and everybody is served in
+ * turn. The order of service is compared with the model: higher priority first, equal priorities by arrival.
+ */
+static int go_prio[NP], go_order[NP], go_nserved;
+
+static void *go_body(struct cmb_process *me, void *ctx)
+{
+    const int id = (int)(intptr_t)ctx;
+    if (op == 1 && id == victim) {
+        cmb_process_timer_add(me, 3.0, CMB_PROCESS_TIMEOUT);
+    }
+    retsig[id] = cmb_resource_acquire(&res);
+    rettime[id] = cmb_time();
+    if (retsig[id] == CMB_PROCESS_SUCCESS) {
+        go_order[go_nserved++] = id;
+        cmb_process_hold(1.0);
+        cmb_resource_release(&res);
+    }
+    return NULL;
+}
+
+static void go_start(void *s, void *o)
+{
+    (void)o;
+    cmb_process_start(s);
+}
+
+static void go_cancel(void *s, void *o)
+{
+    (void)o;
+    cmb_resourceguard_cancel(&res.guard, s);
+}
+
+static void run_guardorder(void)
+{
+    const int n = (int)vx_opt_int("n", 6);
+    const int late = 2;
+    for (int i = 1; i <= n + late; i++) {
+        go_prio[i] = vx_choose_free(3, "priority");
+    }
+    victim = 1 + vx_choose_free(n, "leaver");
+    op = vx_choose_free(2, "leaves-by"); /* 0 cancelled, 1 times out */
+    go_nserved = 0;
+    nprocs = n + late + 1;
+    cmb_resource_initialize(&res, "R");
+    cmb_process_initialize(&procs[0], "h", holder_body, NULL, 5);
+    chain_next = nprocs; /* holder_body's start_next() must not start anybody */
+    cmb_process_start(&procs[0]);
+    for (int i = 1; i <= n + late; i++) {
+        retsig[i] = 777;
+        cmb_process_initialize(&procs[i], "q", go_body, (void *)(intptr_t)i, go_prio[i]);
+        /* arrivals at distinct times; the late ones after the leaver has left (t=2 or t=3), before the release at t=10 */
+        cmb_event_schedule(go_start, &procs[i], NULL, i <= n ? 0.1 * i : 4.0 + 0.1 * i, 0);
+    }
+    if (op == 0) {
+        cmb_event_schedule(go_cancel, &procs[victim], NULL, 2.0, 0);
+    }
+    int guard = 0;
+    while (cmb_event_execute_next() && guard++ < 5000) {
+        vx_transition();
+    }
+    /* model */
+    int expect[NP], ne = 0;
+    for (int i = 1; i <= n + late; i++) {
+        if (i != victim) {
+            expect[ne++] = i;
+        }
+    }
+    for (int a = 0; a < ne; a++) {
+        for (int b = a + 1; b < ne; b++) {
+            if (go_prio[expect[b]] > go_prio[expect[a]]) { /* stable: earlier arrival first among equals */
+                const int t = expect[b];
+                for (int k = b; k > a; k--) {
+                    expect[k] = expect[k - 1];
+                }
+                expect[a] = t;
+            }
+        }
+    }
+    bool same = go_nserved == ne;
+    for (int k = 0; same && k < ne; k++) {
+        same = go_order[k] == expect[k];
+    }
+    if (!same) {
+        char got[80] = "", want[80] = "";
+        for (int k = 0; k < go_nserved && k < 12; k++) {
+            snprintf(got + strlen(got), sizeof got - strlen(got), "%d(p%d) ", go_order[k], go_prio[go_order[k]]);
+        }
+        for (int k = 0; k < ne && k < 12; k++) {
+            snprintf(want + strlen(want), sizeof want - strlen(want), "%d(p%d) ", expect[k], go_prio[expect[k]]);
+        }
+        FAIL("service-order", "%d waiters, waiter %d left the list by %s at t=%d: served in the order %s- expected %s",
+             n, victim, op ? "timeout" : "cancel", op ? 3 : 2, got, want);
+    }
+    uint64_t h = (uint64_t)victim * 2 + (uint64_t)op;
+    for (int i = 1; i <= n + late; i++) {
+        h = h * 3 + (uint64_t)go_prio[i];
+    }
+    vx_state(h);
+    vx_outcome(h);
     res.holder = NULL;
     cmb_resource_terminate(&res);
 }
@@ -623,6 +733,74 @@ static void run_closing(void)
     vx_outcome((uint64_t)(type * 100 + rec * 50 + changes * 10 + fin * 3 + npend));
 }
 
+/*
+ * "restart": one process object is started again and again (documented as valid after it has ended or was
+ * stopped) - 6000 lives, ending by return, by exit from three frames down, or stopped by an event while it
+ * holds; each life uses a few kilobytes of its stack. Whatever a start leaves behind accumulates.
+ */
+static int restart_route;
+
+static void deep_use(int depth, volatile char *sink)
+{
+    volatile char pad[700];
+    pad[0] = (char)depth;
+    pad[699] = (char)(depth + 1);
+    if (depth > 0) {
+        deep_use(depth - 1, pad);
+    }
+    else if (restart_route == 1) {
+        cmb_process_exit((void *)0x77);
+    }
+    *sink = pad[699];
+}
+
+static void *restart_body(struct cmb_process *me, void *ctx)
+{
+    (void)me;
+    (void)ctx;
+    volatile char c = 0;
+    deep_use(3, &c);
+    if (restart_route == 2) {
+        cmb_process_hold(5.0); /* stopped from outside meanwhile */
+    }
+    return (void *)0x55;
+}
+
+static void restart_stopper(void *s, void *o)
+{
+    (void)o;
+    cmb_process_stop(s, NULL);
+}
+
+static void run_restart(void)
+{
+    restart_route = vx_choose_free(3, "route");
+    const int lives = (int)vx_opt_int("lives", 6000);
+    cmb_process_initialize(&procs[0], "r", restart_body, NULL, 0);
+    nprocs = 1;
+    for (int k = 0; k < lives; k++) {
+        cmb_process_start(&procs[0]);
+        if (restart_route == 2) {
+            cmb_event_schedule(restart_stopper, &procs[0], NULL, cmb_time() + 1.0, 0);
+        }
+        while (cmb_event_execute_next()) {
+        }
+        vx_transition();
+        if (cmb_process_status(&procs[0]) != CMB_PROCESS_FINISHED) {
+            FAIL("restart-not-finished", "life %d of the process did not end (route %d)", k, restart_route);
+            break;
+        }
+        const unsigned char *base = procs[0].core.stack_base, *lo = procs[0].core.stack;
+        if (base == NULL || lo == NULL || base < lo + 32 * 1024) {
+            FAIL("restart-stack-shrinks", "after %d lives the top of the coroutine stack is %td bytes above its block's start",
+                 k + 1, base - lo);
+            break;
+        }
+    }
+    vx_outcome((uint64_t)restart_route);
+    vx_state((uint64_t)restart_route);
+}
+
 static void run_one(void)
 {
     memset(procs, 0, sizeof procs);
@@ -636,6 +814,8 @@ static void run_one(void)
     else if (!strcmp(mode, "oqueue")) run_oqueue();
     else if (!strcmp(mode, "observers")) run_observers();
     else if (!strcmp(mode, "closing")) run_closing();
+    else if (!strcmp(mode, "restart")) run_restart();
+    else if (!strcmp(mode, "guardorder")) run_guardorder();
     else run_procwait();
     for (int i = 0; i < NP; i++) {
         if (procs[i].core.stack != NULL) {
